@@ -18,8 +18,16 @@
  *          la = last_activity, tmo = connection_timeout_ms, flags: s suspended, r resuming,
  *          x state == CLOSED
  * No address or fd number is printed.
+ *
+ *   conv <c> <x> <max>   (white-box) with connection <c> the only candidate of MHD_get_timeout64:
+ *             its timeout is set to <x> ms (any uint64) and its stamp to the current time for the
+ *             duration of the call, so that the hint is <x> (0 = no timeout: MHD_NO if nothing is
+ *             pending); prints what the legacy / signed / int wrappers and the two static
+ *             get_timeout_millisec_* (cap <max>, -1 = none) make of it:
+ *             conv h=<hint|none> ull=<v|none> s64=<v> i=<v> ms=<v> msi=<v>
  */
 #include "MHD_config.h"
+#include "daemon.c"   /* white-box: the statics get_timeout_millisec_ / get_timeout_millisec_int */
 #include "internal.h"
 #include <microhttpd.h>
 #include <sys/types.h>
@@ -306,6 +314,29 @@ int main (void)
         ev ("get%u", ci ? ci->connection_timeout : 0u);
       }
       report (echo); continue;
+    }
+    if (!strcmp (op, "conv") && 4 == l.n && lp_u64 (l.w[1], &a) && a < MAXC && conns[a].used && conns[a].mc
+        && !conns[a].mc->suspended && lp_u64 (l.w[2], &b))
+    {
+      struct MHD_Connection *m = conns[a].mc;
+      const uint64_t st = m->connection_timeout_ms, sl = m->last_activity;
+      uint64_t h = 0; MHD_UNSIGNED_LONG_LONG ull = 0; enum MHD_Result r1, r2;
+      long long cap = strtoll (l.w[3], NULL, 10);
+      int64_t s64, ms; int vi, msi;
+      if (cap < -1 || cap > INT32_MAX) { puts ("bad-op"); continue; }
+      /* the list the connection is in must not change: only the two fields read by the hint */
+      m->connection_timeout_ms = b; m->last_activity = vclock_ms;
+      r1 = MHD_get_timeout64 (d, &h);
+      r2 = MHD_get_timeout (d, &ull);
+      s64 = MHD_get_timeout64s (d);
+      vi = MHD_get_timeout_i (d);
+      ms = get_timeout_millisec_ (d, (int32_t) cap);
+      msi = get_timeout_millisec_int (d, (int32_t) cap);
+      m->connection_timeout_ms = st; m->last_activity = sl;
+      if (MHD_YES == r1) printf ("conv h=%" PRIu64, h); else printf ("conv h=none");
+      if (MHD_YES == r2) printf (" ull=%llu", (unsigned long long) ull); else printf (" ull=none");
+      printf (" s64=%" PRId64 " i=%d ms=%" PRId64 " msi=%d\n", s64, vi, ms, msi);
+      continue;
     }
     if (!strcmp (op, "susp") && 2 == l.n && lp_u64 (l.w[1], &a) && a < MAXC && conns[a].used)
     { conns[a].want_susp = 1; report (echo); continue; }
